@@ -614,6 +614,59 @@ pub fn exec(lineno: usize, l: &str) -> String {
                 _ => panic!("bad size"),
             }
         },
+        // projection for C08: is the value (plain and validated) the same under all 24 relabellings of the four suits?
+        // A relabelled card is rebuilt through the public accessors and `create`.
+        "relabel" => {
+            let v = nums();
+            let n = v[0] as usize;
+            let ws = &v[1..];
+            let suits: Vec<CardSuit> = CardSuit::iter().collect();
+            let r = guard(|| {
+                let mut same = true;
+                let mut same_v = true;
+                macro_rules! vals {
+                    ($w:expr) => {
+                        match n {
+                            5 => { let h = Five::from(a5($w)); (h.hand_rank_value(), h.hand_rank_value_validated()) },
+                            6 => { let h = Six::from(a6($w)); (h.hand_rank_value(), h.hand_rank_value_validated()) },
+                            7 => { let h = Seven::from(a7($w)); (h.hand_rank_value(), h.hand_rank_value_validated()) },
+                            _ => panic!("bad size"),
+                        }
+                    };
+                }
+                let (v0, w0) = vals!(ws);
+                let mut p = [0usize, 1, 2, 3];
+                // all 24 permutations of the four real suits (Heap's algorithm, iterative)
+                let mut c = [0usize; 4];
+                let mut i = 0;
+                let mut check = |p: &[usize; 4]| {
+                    let mut h = [0u64; 7];
+                    for (k, w) in ws.iter().enumerate() {
+                        let card = *w as u32;
+                        let si = suit_index(card.get_card_suit());
+                        let ns = if si < 4 { suits[p[si]] } else { suits[si] };
+                        h[k] = u64::from(<CKCNumber as PokerCard>::create(card.get_card_rank(), ns));
+                    }
+                    let (v1, w1) = vals!(&h[..n]);
+                    same &= v1 == v0;
+                    same_v &= w1 == w0;
+                };
+                check(&p);
+                while i < 4 {
+                    if c[i] < i {
+                        if i % 2 == 0 { p.swap(0, i) } else { p.swap(c[i], i) }
+                        check(&p);
+                        c[i] += 1;
+                        i = 0;
+                    } else {
+                        c[i] = 0;
+                        i += 1;
+                    }
+                }
+                format!("{} {}", b(same), b(same_v))
+            });
+            push_opt(&mut o, r);
+        },
         // projection for C09: seven <= every six-subset <= every five-subset, and the minima are attained
         "chain7" | "chain7s" => {
             let v = nums();
